@@ -795,6 +795,11 @@ class UniformTime(np.ndarray, TimeInterface):
                 # we'll overflow if val's dtype is np.int32
                 val = np.array(val, dtype=np.int64)
             val = val * self._conversion_factor
+        else:
+            # a private copy (in the base unit): the operand may be this very
+            # axis, a view of it or one of its elements, which the in-place
+            # operation is about to overwrite before t0 and the interval follow
+            val = np.array(val)
         if hasattr(val, 'ndim') and val.ndim == 1:
             # we have to check that adding this will preserve uniformity
             dv = np.diff(val)
